@@ -43,7 +43,25 @@ impl Cfg {
     #[verifier::external_body] pub fn global() -> &'static Cfg { unimplemented!() }
     #[verifier::external_body] pub fn mute_errors(&self) -> bool { unimplemented!() }
 }
-pub struct StatusWordContainer;
+/// the stored status words (only what the empty-frame message looks at)
+pub struct Ddw0;
+impl Ddw0 { #[verifier::external_body] pub fn lane_status(&self) -> u64 { unimplemented!() } }
+pub struct Tdt;
+impl Tdt {
+    #[verifier::external_body] pub fn lane_status_15_0(&self) -> u16 { unimplemented!() }
+    #[verifier::external_body] pub fn lane_status_23_16(&self) -> u8 { unimplemented!() }
+    #[verifier::external_body] pub fn lane_status_27_24(&self) -> u8 { unimplemented!() }
+}
+pub struct StatusWordContainer { pub d: Option<Ddw0>, pub t: Option<Tdt> }
+impl StatusWordContainer {
+    pub fn ddw(&self) -> (r: Option<&Ddw0>) ensures r is Some == self.d is Some { self.d.as_ref() }
+    pub fn tdt(&self) -> (r: Option<&Tdt>) ensures r is Some == self.t is Some { self.t.as_ref() }
+}
+#[verifier::external_body]
+fn opaque_msg_shaped(b: bool) -> (m: Msg) ensures m.sortable == b { unimplemented!() }
+pub struct LitS;
+pub fn lit(h: u64) -> LitS { LitS }
+impl LitS { #[verifier::external_body] pub fn to_text(&self) -> Msg { unimplemented!() } }
 pub struct Rdh;
 impl Rdh { #[verifier::external_body] pub fn fee_id(&self) -> u16 { unimplemented!() } }
 pub struct Checks;
@@ -110,12 +128,7 @@ impl ItsReadoutFrameValidator {
     /// `fatal_lanes.as_deref()` (Option<&[u8]> in the code)
     #[verifier::external_body]
     pub fn fatal_lanes(&self) -> (r: Option<&LaneList>) ensures (match r { Some(l) => Some(l.v@), None => None }) == opt_seq(self.fatal_lanes) { unimplemented!() }
-    /// E701 (its two last statements: unit v_msg_shape): one message led by the frame's start offset
-    #[verifier::external_body]
-    fn report_empty_alpide_frame_error(&self, frame: &AlpideReadoutFrame, err_chan: &mut flume::Sender<StatType>, status_words: &StatusWordContainer, current_rdh: &Rdh)
-        ensures final(err_chan).log@.len() == old(err_chan).log@.len() + 1, final(err_chan).log@.subrange(0, old(err_chan).log@.len() as int) =~= old(err_chan).log@,
-            final(err_chan).log@.last() matches StatType::Error(m) && m.at == frame.start
-    { unimplemented!() }
+//@EXTRACT report_empty
 
 //@EXTRACT add_fatal_lanes
 
